@@ -6,7 +6,11 @@
 (* pairs applied in order), the projected entries of the real result, the  *)
 (* free symbols reported before and after.  With t.bubble = 1 the second   *)
 (* box sits inside a bubble that squares entrywise: its entries are        *)
-(* parameters of the diagram like any other.                               *)
+(* parameters of the diagram like any other.  t.bubble = 2: the second box *)
+(* is the adjoint of the first.  dg0 / dg1: the dagger flags of the boxes  *)
+(* before and after the chain (substitution must not change them).  The    *)
+(* harness builds the same two arrays as tensor boxes or as classical      *)
+(* gates on one bit.                                                       *)
 (***************************************************************************)
 EXTENDS Param, Json, IOUtils
 PhasesQ == {1}
@@ -21,6 +25,7 @@ OutT(t) ==
       closed == FSEnts(wf) \cup (IF t.bubble = 2 THEN {} ELSE FSEnts(wg)) = {}
       clause == IF t.exc # "" THEN "substitution-raised"
                 ELSE IF t.rf # wf \/ (t.bubble # 2 /\ t.rg # wg) THEN "substituted-entries-differ"
+                ELSE IF t.dg1 # t.dg0 THEN "substitution-changed-a-dagger-flag"
                 ELSE IF SetOfS(t.fs0) # FSEnts(t.f) \cup (IF t.bubble = 2 THEN {} ELSE FSEnts(t.g)) THEN "free-symbols-of-the-diagram-wrong"
                 ELSE IF SetOfS(t.fs1) # FSEnts(wf) \cup (IF t.bubble = 2 THEN {} ELSE FSEnts(wg)) THEN "free-symbols-after-substitution-wrong"
                 ELSE "ok" IN
